@@ -26,16 +26,16 @@ fn pval(v: u8) -> PropertyValue {
     match v {
         0 => PropertyValue::Integer(1),
         1 => PropertyValue::Float(1.0),
-        2 => PropertyValue::String("x".into()),
-        _ => PropertyValue::Integer(2),
+        2 => PropertyValue::Integer(2),
+        _ => PropertyValue::String("x".into()),
     }
 }
 fn pval_name(v: u8) -> &'static str {
     match v {
         0 => "1",
         1 => "1.0",
-        2 => "'x'",
-        _ => "2",
+        2 => "2",
+        _ => "'x'",
     }
 }
 fn lab(i: u8) -> Label {
@@ -950,11 +950,11 @@ fn case_tags(text: &str, st: &Stores) -> CaseTags {
     let (self_loop, parallel) = graph_tags(r);
     let lits = query_literals(text);
     let has = |v: u8| r.nodes.values().any(|n| n.p == Some(v));
-    let twin = (lits.contains(&"i1") && has(1)) || (lits.contains(&"f1") && has(0)) || (lits.contains(&"f2") && has(3));
+    let twin = (lits.contains(&"i1") && has(1)) || (lits.contains(&"f1") && has(0)) || (lits.contains(&"f2") && has(2));
     let is_range = text.contains('<') && !text.contains("<>") && !text.contains("<-") || text.contains('>') && !text.contains("<>") && !text.contains("->");
     let num_lit = lits.iter().any(|l| *l != "s");
     let str_lit = lits.contains(&"s");
-    let cross_family = is_range && ((num_lit && has(2)) || (str_lit && (has(0) || has(1) || has(3))));
+    let cross_family = is_range && ((num_lit && has(3)) || (str_lit && (has(0) || has(1) || has(2))));
     let (stale_label, stale_property) = stale_index_tags(&st.pre);
     CaseTags { self_loop, parallel, twin, cross_family, stale_label, stale_property }
 }
@@ -1259,7 +1259,7 @@ fn explore(depth: usize, bounds: &Bounds, max_states: u64, qs: &[ParsedQ]) -> Ex
 fn tier_params(tier: &str) -> (usize, Bounds) {
     match tier {
         "thorough" => (5, Bounds { max_nodes: 3, max_edges: 3, nvals: NVALS }),
-        // quick writes only 1, 1.0 and 'x' (the queries still name 2 and 2.0); thorough writes all four
+        // quick writes only 1, 1.0 and 2 (the queries still name 'x'); thorough writes all four
         _ => (4, Bounds { max_nodes: env_usize("C02_MAXN", 3), max_edges: env_usize("C02_MAXE", 2), nvals: env_usize("C02_NVALS", 3) as u8 }),
     }
 }
@@ -1429,7 +1429,7 @@ fn main() {
             .iter()
             .map(|t| json!({"mode": "explore", "tier": tier, "depth": depth_override, "out": dir.join(format!("thr{t}")).to_string_lossy()}).to_string())
             .collect();
-        let outs = run_children(cases, 3600);
+        let outs = run_children(cases, 6 * 3600);
         for (i, o) in outs.iter().enumerate() {
             match o {
                 subproc::Outcome::Done(s) if s == "OK" => {}
